@@ -284,7 +284,34 @@ def run(ctx):
                     if rng.random() < 0.2:
                         a.reshape(-1)[0] = top
                 # presentation of the array: byte order, contiguity, narrower safe type
-                how = rng.choice(["plain", "big-endian", "strided", "fortran", "narrow"])
+                how = rng.choice(["plain", "big-endian", "strided", "fortran", "narrow", "unsafe"])
+                if how == "unsafe" and enc != "jpeg" and dt != "float32":
+                    # a chunk of a type that cannot be cast safely to the dataset's (float64 with fractions, large and
+                    # small): it is either refused, or - if accepted - what is read back is exactly what was given
+                    bad = a.astype("float64") % 300000 + rng.choice([0.25, 0.5, 1e-3])
+                    before_truth = truth.get((key, b))
+                    try:
+                        io.write_chunk(bad, key, b)
+                        accepted = True
+                    except Exception:  # noqa (TypeError / AssertionError: refused)
+                        accepted = False
+                    ctx.hist("unsafe_chunk", "accepted" if accepted else "refused")
+                    if accepted:
+                        try:
+                            got = io.read_chunk(key, b) if kind != "sharded" else None
+                        except Exception:  # noqa
+                            got = None
+                        if got is not None and not np.array_equal(got.astype("float64"), bad):
+                            ctx.oracle_fail("write_chunk accepted a chunk that read_chunk returns with other values "
+                                            "(a lossy cast instead of a refusal)",
+                                            {"info": info, "accessor": kind, "key": key, "coords": list(b),
+                                             "written": bad.ravel().tolist()[:8], "got": got.ravel().tolist()[:8]})
+                        truth.pop((key, b), None)
+                        if kind == "sharded":
+                            continue
+                    elif before_truth is None:
+                        truth.pop((key, b), None)
+                    how = "plain"
                 arr = a
                 if how == "big-endian" and enc != "jpeg":
                     arr = a.astype(a.dtype.newbyteorder(">"))
